@@ -18,27 +18,29 @@ Local Open Scope Z_scope.
 
 Definition kShortForm := 16.      (* InstOptions::kShortForm *)
 Definition kLongForm := 32.       (* InstOptions::kLongForm *)
-Definition path_constants : list Z := [kShortForm; kLongForm].
+Definition kInvalidPhysId := 29.
+Definition path_constants : list Z := [kShortForm; kLongForm; kInvalidPhysId].
 
 Inductive uop :=
-| UValid (id : Z) | UDeref (id : Z) | UEmit (n : Z) | UReloc | UFixup (id : Z) (linked : bool) | UFail (e : Z).
+| UValid (id : Z) | UDeref (id : Z) | UEmit (n : Z) | UReloc | UFixup (id : Z) (linked : bool) (rel bits discard : Z) | UFail (e : Z).
 
 Inductive uresult :=
-| UOk (bytes : Z) (fx : option Z) (linked : bool) (relocs : Z)
+| UOk (bytes : Z) (fx : option fixref) (linked : bool) (relocs : Z)
 | UErr (e : Z) (dirty : bool)     (* dirty: a persistent side effect preceded the failure *)
 | UStuck.
 
-Record acc := mkAcc { a_bytes : Z; a_fx : option Z; a_linked : bool; a_relocs : Z; a_dirty : bool }.
+Record acc := mkAcc { a_bytes : Z; a_fx : option fixref; a_linked : bool; a_relocs : Z; a_dirty : bool }.
 Definition acc0 := mkAcc 0 None false 0 false.
 
-Fixpoint exec (valid : Z -> bool) (us : list uop) (ac : acc) : uresult :=
+(* `cur`: offset of the instruction in its section; a fixup points at cur + bytes written so far *)
+Fixpoint exec (valid : Z -> bool) (cur : Z) (us : list uop) (ac : acc) : uresult :=
   match us with
   | [] => UOk (a_bytes ac) (a_fx ac) (a_linked ac) (a_relocs ac)
-  | UValid id :: t => if valid id then exec valid t ac else UErr kInvalidLabel (a_dirty ac)
-  | UDeref id :: t => if valid id then exec valid t ac else UStuck
-  | UEmit n :: t => exec valid t (mkAcc (a_bytes ac + n) (a_fx ac) (a_linked ac) (a_relocs ac) (a_dirty ac))
-  | UReloc :: t => exec valid t (mkAcc (a_bytes ac) (a_fx ac) (a_linked ac) (a_relocs ac + 1) true)
-  | UFixup id l :: t => exec valid t (mkAcc (a_bytes ac) (Some id) l (a_relocs ac) true)
+  | UValid id :: t => if valid id then exec valid cur t ac else UErr kInvalidLabel (a_dirty ac)
+  | UDeref id :: t => if valid id then exec valid cur t ac else UStuck
+  | UEmit n :: t => exec valid cur t (mkAcc (a_bytes ac + n) (a_fx ac) (a_linked ac) (a_relocs ac) (a_dirty ac))
+  | UReloc :: t => exec valid cur t (mkAcc (a_bytes ac) (a_fx ac) (a_linked ac) (a_relocs ac + 1) true)
+  | UFixup id l rel bits dis :: t => exec valid cur t (mkAcc (a_bytes ac) (Some (mkRef id (cur + a_bytes ac) rel bits dis)) l (a_relocs ac) true)
   | UFail e :: t => UErr e (a_dirty ac)
   end.
 
@@ -55,10 +57,10 @@ Definition bound_anywhere (s : state) (id : Z) : bool :=
 
 Inductive relkind :=
 | X86Jmp | X86Jcc | X86Call           (* jmp/jcc/call LABEL *)
-| X86Lea (dst64 : bool)               (* lea r32|r64 (id 0..7), [LABEL + disp] *)
-| A64Rel (bits discard : Z).          (* b/bl: 26,2  b.cond/cbz/ldr literal: 19,2  tbz: 14,2  adr: 21,0 *)
+| X86Lea (dst64 : bool) (disp : Z)    (* lea r32|r64 (id 0..7), [LABEL + disp] *)
+| A64Rel (bits discard : Z) (reg_ok : bool).   (* b/bl: 26,2  b.cond/cbz/ldr literal: 19,2  tbz: 14,2  adr: 21,0;
+                                                   reg_ok: check_gp_id(o0, kZR) of cbz/tbz/adr/ldr holds (id < 31 or id = 63) *)
 
-Definition fits_signed (bits v : Z) : bool := (- 2 ^ (bits - 1) <=? v) && (v <? 2 ^ (bits - 1)).
 
 (* x86 EmitJmpCall with a label operand *)
 Definition x86_jmp_path (s : state) (opcode8 opcode32 : bool) (inst32 : Z) (id : Z) (short long : bool) : list uop :=
@@ -70,38 +72,40 @@ Definition x86_jmp_path (s : state) (opcode8 opcode32 : bool) (inst32 : Z) (id :
       else if negb opcode32 || short then [UFail kInvalidDisplacement]
       else [UEmit inst32]
   | None =>
-      if opcode8 && (negb opcode32 || short) then [UEmit 1; UFixup id false; UEmit 1]
+      if opcode8 && (negb opcode32 || short) then [UEmit 1; UFixup id false (-1) 8 0; UEmit 1]
       else if negb opcode32 || short then [UFail kInvalidDisplacement]
-      else [UEmit (inst32 - 4); UFixup id false; UEmit 4]
+      else [UEmit (inst32 - 4); UFixup id false (-4) 32 0; UEmit 4]
   end.
 
 (* x86 `lea r, [LABEL+disp]`: 64-bit mode (RIP-relative) and 32-bit mode (absolute address through a relocation) *)
-Definition x86_lea_path (a : arch) (s : state) (dst64 : bool) (id : Z) : list uop :=
+Definition x86_lea_path (a : arch) (s : state) (dst64 : bool) (disp : Z) (id : Z) : list uop :=
   match a with
   | X86_64 =>
       let n := if dst64 then 7 else 6 in
       [UValid id; UDeref id] ++
       match bound_here s id with
       | Some _ => [UEmit n]
-      | None => [UEmit (n - 4); UFixup id false; UEmit 4]
+      | None => [UEmit (n - 4); UFixup id false (disp - 4) 32 0; UEmit 4]
       end
   | _ =>
       [UEmit 2; UValid id; UDeref id; UReloc] ++
-      (if bound_anywhere s id then [UEmit 4] else [UFixup id true; UEmit 4])
+      (if bound_anywhere s id then [UEmit 4] else [UFixup id true 0 0 0; UEmit 4])
   end.
 
 (* the same path as written in the pinned tree (the `goto InvalidLabel` is missing, DESIGN 7.3) *)
 Definition x86_lea32_path_pinned (s : state) (id : Z) : list uop :=
-  [UEmit 2; UDeref id; UReloc] ++ (if bound_anywhere s id then [UEmit 4] else [UFixup id true; UEmit 4]).
+  [UEmit 2; UDeref id; UReloc] ++ (if bound_anywhere s id then [UEmit 4] else [UFixup id true 0 0 0; UEmit 4]).
 
 (* a64 EmitOp_Rel with a label operand, then EmitOp_DispImm *)
-Definition a64_rel_path (s : state) (bits discard : Z) (id : Z) : list uop :=
+Definition a64_rel_path (s : state) (bits discard : Z) (reg_ok : bool) (id : Z) : list uop :=
+  (* the register id is checked before the label is looked at: `if (!check_gp_id(o0, kZR)) goto InvalidPhysId` *)
+  (if reg_ok then [] else [UFail kInvalidPhysId]) ++
   [UValid id; UDeref id] ++
   match bound_here s id with
   | Some off =>
       let d := off - cur_size s in
       if (d mod 2 ^ discard =? 0) && fits_signed bits (d / 2 ^ discard) then [UEmit 4] else [UFail kInvalidDisplacement]
-  | None => [UFixup id false; UEmit 4]
+  | None => [UFixup id false 0 bits discard; UEmit 4]
   end.
 
 Definition rel_path (a : arch) (s : state) (k : relkind) (id : Z) (short long : bool) : list uop :=
@@ -109,12 +113,12 @@ Definition rel_path (a : arch) (s : state) (k : relkind) (id : Z) (short long : 
   | X86Jmp => x86_jmp_path s true true 5 id short long
   | X86Jcc => x86_jmp_path s true true 6 id short long
   | X86Call => x86_jmp_path s false true 5 id short long
-  | X86Lea d => x86_lea_path a s d id
-  | A64Rel bits discard => a64_rel_path s bits discard id
+  | X86Lea d disp => x86_lea_path a s d disp id
+  | A64Rel bits discard rok => a64_rel_path s bits discard rok id
   end.
 
 Definition rel_result (a : arch) (s : state) (k : relkind) (id : Z) (short long : bool) : uresult :=
-  exec (label_valid s) (rel_path a s k id short long) acc0.
+  exec (label_valid s) (cur_size s) (rel_path a s k id short long) acc0.
 
 (* verdict handed to the emit transaction (UStuck / dirty failures are proved unreachable in EncPathProofs.v) *)
 Definition verdict_of (r : uresult) : enc_result :=
